@@ -4872,7 +4872,7 @@ impl GraphEngine {
 
                     let neighbor = if edge.from == current {
                         edge.to
-                    } else if edge.to == current {
+                    } else if !edge.directed && edge.to == current {
                         edge.from
                     } else {
                         continue;
